@@ -826,12 +826,22 @@ func CreateTable(ctx context.Context, scope *ReferenceScope, query parser.Create
 	if err != nil {
 		return nil, err
 	}
+	// The file container is shared by every goroutine of the transaction and is not synchronised by itself:
+	// like the table loaders, register and release the handler under the view-loading mutex (not across the
+	// SELECT below, which loads its tables under the same mutex).
+	queryScope.Tx.viewLoadingMutex.Lock()
 	h, err := queryScope.Tx.FileContainer.CreateHandlerForCreate(fileInfo.Path)
+	queryScope.Tx.viewLoadingMutex.Unlock()
 	if err != nil {
 		query.Table.Literal = fileInfo.Path
 		return nil, ConvertFileHandlerError(err, query.Table)
 	}
 	fileInfo.Handler = h
+	closeHandler := func() error {
+		queryScope.Tx.viewLoadingMutex.Lock()
+		defer queryScope.Tx.viewLoadingMutex.Unlock()
+		return queryScope.Tx.FileContainer.Close(fileInfo.Handler)
+	}
 
 	fileInfo.LineBreak = flags.ExportOptions.LineBreak
 	fileInfo.EncloseAll = flags.ExportOptions.EncloseAll
@@ -842,14 +852,14 @@ func CreateTable(ctx context.Context, scope *ReferenceScope, query parser.Create
 	if query.Query != nil {
 		view, err = Select(ctx, queryScope, query.Query.(parser.SelectQuery))
 		if err != nil {
-			return nil, appendCompositeError(err, queryScope.Tx.FileContainer.Close(fileInfo.Handler))
+			return nil, appendCompositeError(err, closeHandler())
 		}
 
 		if err = view.Header.Update(FormatTableName(fileInfo.Path), query.Fields); err != nil {
 			if _, ok := err.(*FieldLengthNotMatchError); ok {
 				err = NewTableFieldLengthError(query.Query.(parser.SelectQuery), query.Table, len(query.Fields))
 			}
-			return nil, appendCompositeError(err, queryScope.Tx.FileContainer.Close(fileInfo.Handler))
+			return nil, appendCompositeError(err, closeHandler())
 		}
 	} else {
 		fields := make([]string, len(query.Fields))
@@ -859,7 +869,7 @@ func CreateTable(ctx context.Context, scope *ReferenceScope, query parser.Create
 			ulit := strings.ToUpper(lit)
 			if _, ok := fieldsMap[ulit]; ok {
 				err = NewDuplicateFieldNameError(query.Fields[i].(parser.Identifier))
-				return nil, appendCompositeError(err, queryScope.Tx.FileContainer.Close(fileInfo.Handler))
+				return nil, appendCompositeError(err, closeHandler())
 			}
 			fields[i] = lit
 			fieldsMap[ulit] = true
